@@ -11,7 +11,8 @@ Definition C13_full : Prop := forall c, wf_case c = true -> spec_C13 c (run_C13 
 
 (* (0) structural obligations over the skeleton regenerated from src/database/sqlite_database.rs on every
    run: BEGIN, loop, daily_log.write, COMMIT in this order (the marks are written in the same transaction,
-   before COMMIT); every message kind has its arm, every statement group's error exit issues ROLLBACK;
+   before COMMIT); every message kind has its arm, every statement group's error exit issues ROLLBACK, and so do
+   the error exits of daily_log.write and of COMMIT;
    the acknowledgement loop runs on the result, Ok branch sends Ok, Err branch sends Err, on the same route;
    the H4 points cover every group, the marks, COMMIT and the acknowledgement *)
 Theorem C13_skeleton_obligations : sk_ok code_skeleton = true /\ points_complete code_skeleton = true.
@@ -86,19 +87,19 @@ Print Assumptions C13_refuted_witness_in_class.
 
 Example C13_nonvacuous :
   wf_case nonvacuous_case = true /\ known_C13 nonvacuous_case = [] /\
-  run_C13 nonvacuous_case = [1; -1; 1;  0; -1; 1;  0; -1; 1;  0; -1; 1;  0; -1; 0;  0; 6; 1; 1; 1; 1; 1].
+  run_C13 nonvacuous_case = [1; -1; 1;  0; -1; 1;  0; -1; 1;  0; -1; 1;  0; -1; 0;  0; 6; 1; 1; 1; 1; 1; 1].
 Proof. exact nonvacuous. Qed.
 Print Assumptions C13_nonvacuous.
 
-(* (7) K1, as the code is (daily_log.write / COMMIT leave through `?` without ROLLBACK): a connection left
-   inside a transaction reports every later batch failed and changes nothing until restart. Not a violation
-   of C13 (nothing partial becomes visible) - the loss of service belongs to C14 *)
-Theorem C13_K1_wedged_until_restart :
-  (sk_marks_rollback code_skeleton = false /\ sk_commit_rollback code_skeleton = false) /\
-  (exists sched, let '(st', o, _, _) := run_batch code_skeleton sched 0 {| w_disk := init_disk []; w_stuck := false |} [k1_req] in
-                 w_stuck st' = true /\ o = Returned false) /\
-  (forall sk sched n st b st' o n' last,
-     w_stuck st = true -> run_batch sk sched n st b = (st', o, n', last) ->
-     st' = st /\ (o = Returned false \/ o = Died false)).
-Proof. exact (conj code_no_rollback_after_marks_or_commit (conj wedge_reachable wedged_forever)). Qed.
-Print Assumptions C13_K1_wedged_until_restart.
+(* (7) K1 repaired (fix d89b357: ROLLBACK when daily_log.write or COMMIT fail; the rollback on these two exits
+   is now part of sk_ok, re-proved over the regenerated skeleton): whatever fails, the connection is never left
+   inside a transaction, so a failed batch does not take the writer out of service *)
+Theorem C13_never_wedged_holds : forall sk sched bs n st au,
+  sk_ok sk = true -> w_stuck st = false -> w_stuck (rr_state (run_batches sk sched n st au bs)) = false.
+Proof. exact run_never_wedged. Qed.
+Print Assumptions C13_never_wedged_holds.
+Example C13_service_continues_after_failed_commit :
+  let r := run_batches code_skeleton (sched_of (FFail 5)) 0 {| w_disk := init_disk []; w_stuck := false |} true [[k1_req]; [k1_req2]] in
+  map (fun x => (it_ack x, it_committed x)) (rr_items r) = [(Some false, false); (Some true, true)] /\ w_stuck (rr_state r) = false.
+Proof. exact service_continues. Qed.
+Print Assumptions C13_service_continues_after_failed_commit.
